@@ -399,3 +399,122 @@ Proof.
   destruct (hist_u (lb (run_dops e1 walk))) as [|u]; cbn [seqpos]; [lia|].
   destruct (d_rng _ _ _ D u ltac:(lia)). lia.
 Qed.
+
+(* ------------------------------------------------------------------------------------------ *)
+(* the table bufs[NBUFS] with empty slots: ec_quit visits every slot of the array (round e: a scan that stops
+   short of the last slot of a full table is a different function) *)
+Lemma occupied_app a b : occupied (a ++ b) = occupied a ++ occupied b.
+Proof. apply flat_map_app. Qed.
+Lemma occupied_map_some l : occupied (map Some l) = l.
+Proof. induction l as [|x l IH]; [reflexivity|]. cbn. f_equal. exact IH. Qed.
+Lemma occupied_repeat_none k : occupied (repeat None k) = [].
+Proof. induction k as [|k IH]; [reflexivity | exact IH]. Qed.
+Lemma occupied_full l : occupied (full_table l) = l.
+Proof. unfold full_table. rewrite occupied_app, occupied_map_some, occupied_repeat_none. apply app_nil_r. Qed.
+Lemma full_table_length l : (length l <= NSLOTS)%nat -> length (full_table l) = NSLOTS.
+Proof. intro H. unfold full_table. rewrite app_length, map_length, repeat_length. lia. Qed.
+Lemma occupied_in t b : In (Some b) t <-> In b (occupied t).
+Proof.
+  unfold occupied. rewrite in_flat_map. split.
+  - intro H. exists (Some b). split; [exact H | left; reflexivity].
+  - intros (s & Hs & Hb). destruct s as [x|]; [|destruct Hb]. destruct Hb as [->|[]]. exact Hs.
+Qed.
+
+Lemma switch_tab_length pre b r : length (switch_tab pre b r) = length (pre ++ Some b :: r).
+Proof. destruct pre as [|x p]; cbn [switch_tab app length]; [reflexivity|]. rewrite !app_length. cbn [length]. lia. Qed.
+Lemma occupied_bumpS x : map content (occupied [bumpS x]) = map content (occupied [x]).
+Proof. destruct x; reflexivity. Qed.
+Lemma switch_tab_perm pre b r :
+  Permutation (map content (occupied (switch_tab pre b r))) (map content (occupied (pre ++ Some b :: r))).
+Proof.
+  destruct pre as [|x p]; cbn [switch_tab app].
+  - change (Some (bumpE b) :: r) with ([Some (bumpE b)] ++ r). change (Some b :: r) with ([Some b] ++ r).
+    rewrite !occupied_app. apply Permutation_refl.
+  - change (Some b :: bumpS x :: p ++ r) with ([Some b] ++ [bumpS x] ++ p ++ r).
+    change (x :: p ++ Some b :: r) with ([x] ++ p ++ [Some b] ++ r).
+    rewrite !occupied_app, !map_app, occupied_bumpS.
+    set (B := map content (occupied [Some b])). set (X := map content (occupied [x])).
+    set (P := map content (occupied p)). set (R := map content (occupied r)).
+    eapply Permutation_trans; [apply Permutation_app_swap_app|]. apply Permutation_app_head. apply Permutation_app_swap_app.
+Qed.
+
+Lemma quit_tab_spec l : forall pre,
+  let r := quit_tab pre l in
+  length (fst r) = length (rev pre ++ l) /\
+  Permutation (map content (occupied (fst r))) (map content (occupied (rev pre ++ l))) /\
+  (snd r = true -> Forall (fun b => dirty_flag b = false) (occupied l)) /\
+  (snd r = false -> exists b rest, fst r = Some b :: rest /\ dirty_flag b = true).
+Proof.
+  induction l as [|s r IH]; intro pre; cbn [quit_tab]; cbv zeta.
+  - rewrite app_nil_r. cbn [fst snd]. split; [reflexivity|]. split; [apply Permutation_refl|]. split; [constructor | discriminate].
+  - destruct s as [b|].
+    + pose proof (bufs_modified_content b) as Cb. pose proof (bufs_modified_flag b) as Fb.
+      assert (Fb' : dirty_flag (fst (bufs_modified b)) = dirty_flag b) by reflexivity.
+      destruct (bufs_modified b) as [b' m]. cbn [fst snd] in Cb, Fb, Fb'. destruct m; cbn [fst snd].
+      * split; [rewrite switch_tab_length, !app_length; reflexivity|]. split.
+        -- eapply Permutation_trans; [apply switch_tab_perm|].
+           change (Some b' :: r) with ([Some b'] ++ r). change (Some b :: r) with ([Some b] ++ r).
+           rewrite !occupied_app, !map_app. cbn [occupied flat_map map app]. rewrite Cb. apply Permutation_refl.
+        -- split; [discriminate|]. intros _. destruct (rev pre) as [|x p]; cbn [switch_tab].
+           ++ exists (bumpE b'), r. split; [reflexivity|]. rewrite bumpE_flag, Fb'. symmetry. exact Fb.
+           ++ exists b', (bumpS x :: p ++ r). split; [reflexivity|]. rewrite Fb'. symmetry. exact Fb.
+      * specialize (IH (Some b' :: pre)). cbv zeta in IH. destruct IH as (L & P & S1 & S2).
+        cbn [rev] in L, P. rewrite <- app_assoc in L, P. cbn [app] in L, P. split.
+        -- rewrite L, !app_length. reflexivity.
+        -- split.
+           ++ eapply Permutation_trans; [exact P|].
+              change (Some b' :: r) with ([Some b'] ++ r). change (Some b :: r) with ([Some b] ++ r).
+              rewrite !occupied_app, !map_app. cbn [occupied flat_map map app]. rewrite Cb. apply Permutation_refl.
+           ++ split; [|exact S2]. intro H. cbn [occupied flat_map app]. constructor; [symmetry; exact Fb | apply S1; exact H].
+    + specialize (IH (None :: pre)). cbv zeta in IH. destruct IH as (L & P & S1 & S2).
+      cbn [rev] in L, P. rewrite <- app_assoc in L, P. cbn [app] in L, P. repeat split; auto.
+Qed.
+
+Theorem quit_tab_sound t : Forall EInv (occupied t) -> snd (ec_quit_tab false t) = true ->
+  Forall (fun b => ln (lb b) = disk b) (occupied t).
+Proof.
+  intros HI Q. cbn [ec_quit_tab] in Q. destruct (quit_tab_spec t []) as (_ & _ & S1 & _). specialize (S1 Q).
+  rewrite Forall_forall in *. intros b Hb. destruct (HI b Hb) as (g0 & D).
+  apply (clean_sound _ g0); [exact D | apply S1; exact Hb].
+Qed.
+
+Theorem quit_tab_sound_reachable t : length t = NSLOTS -> Forall reachable (occupied t) -> snd (ec_quit_tab false t) = true ->
+  Forall (fun b => ln (lb b) = disk b) (occupied t).
+Proof. intros _ H. apply quit_tab_sound. eapply Forall_impl; [|exact H]. apply reachable_EInv. Qed.
+
+Theorem quit_tab_refuses t b : In (Some b) t -> dirty_flag b = true ->
+  snd (ec_quit_tab false t) = false /\
+  length (fst (ec_quit_tab false t)) = length t /\
+  Permutation (map content (occupied (fst (ec_quit_tab false t)))) (map content (occupied t)) /\
+  exists cur rest, fst (ec_quit_tab false t) = Some cur :: rest /\ dirty_flag cur = true.
+Proof.
+  intros Hb Fb. cbn [ec_quit_tab]. destruct (quit_tab_spec t []) as (L & P & S1 & S2). cbn [rev app] in L, P.
+  destruct (snd (quit_tab [] t)) eqn:Q.
+  - exfalso. specialize (S1 eq_refl). rewrite Forall_forall in S1. apply occupied_in in Hb. rewrite (S1 b Hb) in Fb. discriminate.
+  - split; [reflexivity|]. split; [exact L|]. split; [exact P|]. exact (S2 eq_refl).
+Qed.
+
+(* on the tables the editor can reach (occupied slots first, C20_wf) the array loop is the list scan of quit_scan *)
+Lemma quit_tab_none pre k : quit_tab pre (repeat None k) = (rev pre ++ repeat None k, true).
+Proof.
+  revert pre. induction k as [|k IH]; intro pre; cbn [repeat quit_tab]; [rewrite app_nil_r; reflexivity|].
+  rewrite IH. cbn [rev]. rewrite <- app_assoc. reflexivity.
+Qed.
+Lemma quit_tab_prefix k l : forall pre,
+  quit_tab (map Some pre) (map Some l ++ repeat None k) =
+  (map Some (fst (quit_scan pre l)) ++ repeat None k, snd (quit_scan pre l)).
+Proof.
+  induction l as [|b r IH]; intro pre; cbn [map app quit_tab quit_scan].
+  - rewrite quit_tab_none. cbn [fst snd]. rewrite <- map_rev. reflexivity.
+  - destruct (bufs_modified b) as [b' m]. destruct m.
+    + cbn [fst snd]. f_equal. rewrite <- map_rev. destruct (rev pre) as [|x p]; cbn [map switch_tab switch_to bumpS app]; [reflexivity|].
+      rewrite map_app, <- app_assoc. reflexivity.
+    + exact (IH (b' :: pre)).
+Qed.
+Theorem quit_tab_is_scan l : (length l <= NSLOTS)%nat ->
+  ec_quit_tab false (full_table l) = (full_table (fst (ec_quit false l)), snd (ec_quit false l)).
+Proof.
+  intro H. cbn [ec_quit_tab ec_quit]. unfold full_table at 1. rewrite (quit_tab_prefix _ l []).
+  unfold full_table. destruct (quit_scan_spec l []) as (P & _). cbn [rev app] in P.
+  apply Permutation_length in P. rewrite !map_length in P. rewrite P. reflexivity.
+Qed.
